@@ -28,6 +28,7 @@ func main() {
 	commands["run"] = cmdRun
 	commands["render"] = cmdRender
 	commands["gen"] = cmdGen
+	commands["lex"] = cmdLex
 	f, ok := commands[os.Args[1]]
 	if !ok {
 		fatal("unknown command %s", os.Args[1])
